@@ -27,12 +27,15 @@ Fixpoint calls_of (idx : nat) (nres : nat) (seen : list lparam) (ps : list lpara
       ++ calls_of idx nres (seen ++ [p]) r
   end.
 
-Fixpoint all_calls_from (idx : nat) (ovs : list lfun) : list lcall :=
+(* CXX_subprogram is taken from the FIRST overload and handed to every LuaFunction: the number of
+   results of every variation is that of the first overload *)
+Fixpoint all_calls_from (nres : nat) (idx : nat) (ovs : list lfun) : list lcall :=
   match ovs with
   | [] => []
-  | f :: r => calls_of idx (if f_result f then 1 else 0) [] (f_params f) ++ all_calls_from (S idx) r
+  | f :: r => calls_of idx nres [] (f_params f) ++ all_calls_from nres (S idx) r
   end.
-Definition all_calls (ovs : list lfun) : list lcall := all_calls_from 0 ovs.
+Definition all_calls (ovs : list lfun) : list lcall :=
+  all_calls_from (match ovs with f :: _ => if f_result f then 1 else 0 | [] => 0 end) 0 ovs.
 
 (* what the generated function does *)
 Inductive louter :=
@@ -76,6 +79,8 @@ Definition dispatch (lay : layout) (ovs : list lfun) (stack : list ltag) : loute
       end
   end.
 
-(* the layouts wrapl.py uses (current tree) *)
+(* the layouts wrapl.py uses: free functions and constructors find their first argument at stack
+   index 1; a method is called as obj:method(args), so the object is at index 1, the first argument
+   at index 2, and the object is not counted (after the repair of wrapl.py, see known_findings.json) *)
 Definition lay_function : layout := {| first_arg := 1; count_off := 0; type_off := 0 |}.
-Definition lay_method : layout := {| first_arg := 1; count_off := 0; type_off := 0 |}.
+Definition lay_method : layout := {| first_arg := 2; count_off := 1; type_off := 1 |}.
